@@ -21,7 +21,7 @@ WORKERS = 8
 BASE = dict(Issuers='{"i1", "i2"}', Nodes='{"n1", "n2"}', MaxCreds=3, B=2, Validity=4, MinLeft=1, MaxTicks=2, MaxForge=1,
             Kinds='{"sl", "net"}', RevForgeKinds='{"othersigner", "otherissuer", "wrongkey", "resubject"}', Rels='{"unrelated"}',
             Srcs='{"up", "down", "forged-set", "forged-clear", "otherlist"}', ForeignTarget='"i1"', Local='TRUE',
-            ListIssuerChecked='TRUE', ListSubjectChecked='TRUE', RevIssuerChecked='TRUE', ResignBeforeExpiry='TRUE', ResignRereads='TRUE', Servers='{}', RenewCreatedAt='FALSE',
+            ListIssuerChecked='TRUE', ListSubjectChecked='TRUE', RevIssuerChecked='TRUE', ExtSizes='{}', FullListRead='TRUE', ResignBeforeExpiry='TRUE', ResignRereads='TRUE', Servers='{}', RenewCreatedAt='FALSE',
             Procs='{}', RowLock='TRUE', Hist='FALSE')
 CHECK = ("INVARIANTS TypeOK SlotsUnique SlotsOwn RevokedIsPermanent IssuerOnly EntryOnlyFromNamedList ServedListValidAndFresh\n"
          "PROPERTIES BitsMonotone KnownMonotone\n")
@@ -31,10 +31,14 @@ NET = dict(Kinds='{"net"}', MaxTicks=0, MaxForge=2, Srcs='{"up"}', ForeignTarget
 NODES = dict(Issuers='{"i1"}', MaxCreds=2, MaxTicks=1, RenewCreatedAt='TRUE', RevForgeKinds='{"othersigner"}', Srcs='{"up", "down", "forged-set", "forged-clear"}')
 SERVE = dict(Issuers='{"i1"}', Nodes='{"n1"}', MaxCreds=2, MaxTicks=6, Kinds='{"sl"}', RevForgeKinds='{}', Srcs='{"up", "down"}', ForeignTarget='"none"',
              Servers='{"s1"}')
+ALL_SIZES = '{"min", "odd", "double"}'
+EXT = dict(Issuers='{"i1"}', Nodes='{"n1"}', MaxCreds=3, MaxTicks=1, Kinds='{"ext"}', RevForgeKinds='{}', Srcs='{"up", "down", "forged-set", "forged-clear"}',
+           ForeignTarget='"none"', Local='FALSE', ExtSizes=ALL_SIZES)
 ALLOC = dict(Nodes='{}', MaxCreds=4, MaxTicks=0, MaxForge=0, Kinds='{"sl"}', RevForgeKinds='{}', Srcs='{"up"}', ForeignTarget='"none"',
              Local='FALSE', Procs='{"p1", "p2"}')
 GEN = dict(ListIssuerChecked='FALSE', RenewCreatedAt='FALSE', Hist='TRUE')   # descriptive: F15 (the issuer of a fetched list is not compared)
-TRACE = dict(MaxTicks=99, MaxForge=99, RenewCreatedAt='FALSE', Hist='FALSE', Rels=ALL_RELS, Servers='{"s1", "s2"}')
+TRACE = dict(MaxTicks=99, MaxForge=99, RenewCreatedAt='FALSE', Hist='FALSE', Rels=ALL_RELS, Servers='{"s1", "s2"}', ExtSizes=ALL_SIZES,
+             Kinds='{"sl", "net", "ext"}')
 
 def _inv(*names):
     return "INVARIANTS " + " ".join(names) + "\n"
@@ -50,6 +54,8 @@ CFGS = {
     "net.quick": ("network revocations, prescriptive: 2 issuers, 2 nodes, every forged document class", CHECK, NET),
     "nodes.quick": ("two remote nodes, both revocation mechanisms, one issuer", CHECK, NODES),
     "serve.quick": ("serving over a long time: re-signing before expiry; a GET split at its transaction races with Revoke / other GETs / time", CHECK, SERVE),
+    "ext.quick": ("external issuers with lists of the minimum size, one byte more, twice the size; entries at the first / last-of-minimum / "
+                  "first-beyond-minimum / last / beyond-the-list position; 1 node", CHECK, EXT),
     "alloc.quick": ("Entry() split at the row lock: two concurrent transactions, retry on duplicate key (TLC only)", CHECK, ALLOC),
     "status.thorough": ("status lists at the full bounds: 2 issuers, 2 remote nodes, 4 credentials, roll-over at B=3 (symmetry over issuers and nodes)",
                         "SYMMETRY Sym\n" + CHECK,
@@ -63,6 +69,8 @@ CFGS = {
                        dict(SERVE, MaxTicks=6, MaxCreds=3)),
     "serve2.thorough": ("serving over a long time (8 ticks = two validity periods), TWO GETs split at their transactions", CHECK,
                         dict(SERVE, MaxTicks=8, MaxCreds=2, Servers='{"s1", "s2"}')),
+    "ext.thorough": ("external issuers (all list sizes and positions) next to a hosted issuer, 2 nodes", CHECK,
+                     dict(EXT, Nodes='{"n1", "n2"}', Kinds='{"ext", "sl"}', MaxCreds=3, ForeignTarget='"i1"', Local='TRUE')),
     "alloc.thorough": ("Entry() split at the row lock: three concurrent transactions, 5 entries", CHECK, dict(ALLOC, MaxCreds=5, Procs='{"p1", "p2", "p3"}')),
     # --- deviation configs: the named check switched off MUST violate the named invariant ---------------------
     "dev.listissuer": ("deviation F15: issuer of the fetched list not compared -> a list issued by another party revokes", _inv("IssuerOnly"),
@@ -73,6 +81,8 @@ CFGS = {
     "dev.revissuer": ("deviation: RegisterRevocation does not tie the revocation to the credential's issuer", _inv("IssuerOnly"),
                       dict(NET, MaxCreds=1, RevIssuerChecked='FALSE')),
     "dev.resign": ("deviation: the list is not re-signed before it expires", _inv("ServedListValidAndFresh"), dict(SERVE, ResignBeforeExpiry='FALSE')),
+    "dev.truncate": ("deviation: the verifier keeps only the first 16kB of a downloaded list -> a bit above index 131071 is lost", _inv("RevokedIsPermanent"),
+                     dict(EXT, FullListRead='FALSE')),
     "dev.rowlock": ("deviation: Entry() without the row lock", _inv("SlotsUnique"), dict(ALLOC, RowLock='FALSE')),
     "dev.reread": ("deviation: the re-sign transaction of a GET uses the revocations read BEFORE the transaction -> a set bit is cleared",
                    "PROPERTIES BitsMonotone\n", dict(SERVE, ResignRereads='FALSE')),
@@ -86,8 +96,9 @@ CFGS = {
     "gen.nodes": ("behaviour generation, two nodes and both mechanisms", _inv("Emit"), dict(NODES, **GEN)),
     "gen.serve": ("behaviour generation, GETs split at their transaction racing with Revoke, other GETs and time", _inv("Emit"),
                   dict(SERVE, MaxTicks=4, **GEN)),
+    "gen.ext": ("behaviour generation, external issuers: list sizes x positions", _inv("Emit"), dict(EXT, **GEN)),
     "gen.sim": ("behaviour generation by simulation at the full bounds (2 issuers, 2 nodes, roll-over at B=3, both mechanisms, all forgeries, split GETs)",
-                _inv("Emit"), dict(MaxCreds=5, B=3, MaxTicks=5, MaxForge=2, Rels=ALL_RELS, Servers='{"s1"}', **GEN)),
+                _inv("Emit"), dict(MaxCreds=5, B=3, MaxTicks=5, MaxForge=2, Rels=ALL_RELS, Servers='{"s1"}', ExtSizes=ALL_SIZES, Kinds='{"sl", "net", "ext"}', **GEN)),
     "gen.alloc": ("witnesses of the split Entry transaction (documentation of the schedules TLC covers)", _inv("EmitAlloc"), dict(ALLOC, Hist='TRUE')),
     # --- trace validation ---------------------------------------------------------------------------------------
     "trace.b2.lic0": ("trace validation, B=2, descriptive (F15 open)", TRACE_TAIL, dict(TRACE, MaxCreds=4, B=2, ListIssuerChecked='FALSE')),
@@ -98,7 +109,8 @@ CFGS = {
 # expected outcome of the deviation configs
 DEVIATIONS = {"dev.listissuer": "IssuerOnly", "dev.listissuer2": "RevokedIsPermanent", "dev.listsubject": "EntryOnlyFromNamedList",
               "dev.revissuer": "IssuerOnly", "dev.resign": "ServedListValidAndFresh", "dev.rowlock": "SlotsUnique",
-              "reach.dupretry": "NeverDuplicate", "dev.reread": "BitsMonotone", "dev.reread2": "RevokedIsPermanent"}
+              "reach.dupretry": "NeverDuplicate", "dev.reread": "BitsMonotone", "dev.reread2": "RevokedIsPermanent",
+              "dev.truncate": "RevokedIsPermanent"}
 
 
 def cfg_name(key):
@@ -135,7 +147,7 @@ def _strs(setlit):
 def features(b):
     """What a behaviour exercises (atomic features): used to pick a sample that covers every feature seen in any witness."""
     f = set()
-    revoked, kinds, lists = set(), {}, {}
+    revoked, kinds, lists, ext = set(), {}, {}, {}
     pending = {}          # server -> [list, raced by a revocation on the same list, raced by a tick, raced by another GET]
     for s in b:
         a = s["a"]
@@ -143,6 +155,9 @@ def features(b):
             kinds[s["c"]] = s["kind"]
             lists[s["c"]] = (s["i"], s["page"])
             f.add(("issue", s["kind"], s["page"] > 1))
+            if s["kind"] == "ext":       # size of the external list x position class of the entry
+                ext[s["c"]] = (s["i"], s["slot"])
+                f.add(("issue-ext",) + ext[s["c"]])
         elif a in ("RevokeStatus", "RevokeNet"):
             if s["res"] == "ok":
                 for p in pending.values():
@@ -154,6 +169,8 @@ def features(b):
             f.add(("deliver", s["k"], s.get("r", ""), kinds.get(s["c"]), s["c"] in revoked))
         elif a == "Verify":
             f.add(("verify", s["src"], s.get("v"), s["c"] == "fx", s["c"] in revoked))
+            if s["c"] in ext:
+                f.add(("verify-ext",) + ext[s["c"]] + (s["src"], s.get("v"), s["c"] in revoked))
         elif a == "VerifyLocal":
             f.add(("local", s.get("v")))
         elif a == "ServeBegin":
@@ -260,7 +277,7 @@ def with_sweep(b, consts):
             out.append(dict(a="Verify", c=c, n=n, src="up" if kinds[c] == "net" else "down", sweep=True))
     if consts["Local"] == "TRUE":
         for c in creds:
-            if kinds[c] != "net":
+            if kinds[c] not in ("net", "ext"):
                 out.append(dict(a="VerifyLocal", c=c, sweep=True))
     for i, p in lists:
         out.append(dict(a="Serve", i=i, p=p, sweep=True))
@@ -288,8 +305,8 @@ def paused_revoke_variants(b):
 def generate(tier, seed, rnd):
     """-> list of (gen cfg key, [behaviours]) plus statistics."""
     quick = tier == "quick"
-    plan = [("gen.status.quick" if quick else "gen.status", 60 if quick else 700), ("gen.net", 20 if quick else 200),
-            ("gen.nodes", 25 if quick else 300), ("gen.serve", 30 if quick else 300)]
+    plan = [("gen.status.quick" if quick else "gen.status", 55 if quick else 700), ("gen.net", 20 if quick else 200),
+            ("gen.nodes", 20 if quick else 300), ("gen.serve", 25 if quick else 300), ("gen.ext", 40 if quick else 300)]
     groups, stats = [], {}
     for key, n in plan:
         g = vlib.tlc("MCRevocation", cfg_name(key), workers=WORKERS, timeout=900)
@@ -377,7 +394,7 @@ def run(prop, tier, seed, replay=None):
     # 1. the prescriptive design satisfies C11 (exhaustive, family by family)
     states = transitions = 0
     models, cover = [], {}
-    fams = ["status", "net", "nodes", "serve", "alloc"] + ([] if quick else ["mixed", "serve2"])
+    fams = ["status", "net", "nodes", "serve", "ext", "alloc"] + ([] if quick else ["mixed", "serve2"])
     for fam in fams:
         key = "%s.%s" % (fam, "quick" if quick or fam == "" else "thorough")
         m = vlib.tlc("MCRevocation", cfg_name(key), workers=WORKERS, timeout=1500, coverage=not quick)
@@ -402,7 +419,7 @@ def run(prop, tier, seed, replay=None):
             deviations[key] = d.violation
             if d.violation != want:
                 raise Inconclusive("deviation config %s: expected a violation of %s, got %s %s" % (key, want, d.violation, d.error))
-        never = [a for a in ("IssueObs", "RevokeStatus", "RevokeNet", "Serve", "ServeBegin", "ServeResign", "DeliverObs", "VerifyL", "VerifyLocal", "Tick",
+        never = [a for a in ("IssueObs", "IssueExt", "RevokeStatus", "RevokeNet", "Serve", "ServeBegin", "ServeResign", "DeliverObs", "VerifyL", "VerifyLocal", "Tick",
                              "EntryRead", "EntryWrite")
                  if cover.get(a, 0) == 0]
         if never:
